@@ -357,6 +357,12 @@ def run(ctx, proofs):
             kinds[t] = kinds.get(t, 0) + 1
         nontrivial.add((d["POST"] != "panic" and "T" in post_defs, re.sub(r"@\d+:\d+:\d+|_\d+_\d+", "", post_defs.get("T", d["REP"]))[:4000]))
 
+    # a difference between the specified expansion and the implementation's output is a failing input of the
+    # property itself ("inputs assigned in declaration order or by name, outputs read in declaration order")
+    for d0 in spec_diff:
+        failing.append({"label": d0["label"], "input": d0["input"],
+                        "impl": "the desugared template differs from expand_spec: " + d0["impl"], "spec": d0["spec"]})
+
     # (ii) end to end
     pairs = e2e_pairs()
     if quick:
